@@ -259,7 +259,11 @@ impl EventGen for GroupElement {
             events.push(OutputEvent::Start(new_el));
 
             if let Some(inner_events) = self.0.inner_events(context) {
-                let (ev_list, bb) = process_events(inner_events, context)?;
+                // pop variables off the stack on failure too: errors are routine
+                // (forward references are retried) and must not leak this scope
+                let (ev_list, bb) = process_events(inner_events, context).inspect_err(|_| {
+                    context.pop_element();
+                })?;
                 content_bb = bb;
                 events.extend(&ev_list);
             }
@@ -341,8 +345,9 @@ impl EventGen for SpecsElement {
         }
         if let Some(inner_events) = self.0.inner_events(context) {
             context.in_specs = true;
-            process_events(inner_events, context)?;
+            let result = process_events(inner_events, context);
             context.in_specs = false;
+            result?;
         }
         Ok((OutputList::new(), None))
     }
